@@ -4,6 +4,7 @@ import (
 	"fmt"
 	"go/ast"
 	"go/types"
+	"regexp"
 	"sort"
 	"strings"
 )
@@ -79,6 +80,7 @@ type Exec struct {
 	symCount        int
 	ghostEntry      map[string]*Term
 	nPreFacts       int
+	ordSeen         map[string]map[string]int
 }
 
 type lazyForall struct {
@@ -158,8 +160,39 @@ func (ex *Exec) pathLabel() string {
 	return sb.String()
 }
 
+var lineRef = regexp.MustCompile(`@[A-Za-z0-9_]+\.go:\d+`)
+
+// stabilise replaces source positions in obligation labels by per-path ordinals, so that names
+// survive edits that only move code.
+func (ex *Exec) stabilise(kind, label string) string {
+	loc := lineRef.FindString(label)
+	if loc == "" {
+		return label
+	}
+	base := strings.Replace(label, loc, "", 1)
+	key := kind + ":" + base
+	if ex.ordSeen == nil {
+		ex.ordSeen = map[string]map[string]int{}
+	}
+	m := ex.ordSeen[key]
+	if m == nil {
+		m = map[string]int{}
+		ex.ordSeen[key] = m
+	}
+	k, ok := m[loc]
+	if !ok {
+		k = len(m) + 1
+		m[loc] = k
+	}
+	return strings.Replace(label, loc, fmt.Sprintf("@%d", k), 1)
+}
+
 // oblige records a proof obligation under the current path.
 func (ex *Exec) oblige(kind, label string, goal *Term, info string) *Oblig {
+	if loc := lineRef.FindString(label); loc != "" {
+		info = strings.TrimSpace(info + " (" + loc[1:] + ")")
+	}
+	label = ex.stabilise(kind, label)
 	name := ex.fn.QName() + "#" + kind
 	if label != "" {
 		name += ":" + label
